@@ -899,8 +899,10 @@ func checkC14(env *Env) []Violation {
 		}
 		if r.Err == "" {
 			okCloses++
-			if n, ok := r.Extra.(int); ok && n != 0 {
-				out = append(out, vf("goroutine-left", "%d goroutine(s) of the reporter still alive when Close returned", n))
+			if l, ok := r.Extra.(*leftAtClose); ok {
+				if w := l.stillAtWork(); len(w) > 0 {
+					out = append(out, vf("goroutine-left", "%d goroutine(s) of the reporter had not ended when Close returned: %s", len(w), strings.Join(w, "; ")))
+				}
 			}
 		}
 		if r.Inv != a.closeInv && r.Inv < a.closeRet {
